@@ -1,12 +1,12 @@
 (* Executable side of the C48 correspondence (see Model/C14Check.v for the observation formats).
-   Result = verdict*10 + d;  d = 1: configuration in c48_dom_tail, 2: in c48_dom_override, 0: in neither. *)
+   Result = verdict*10 + d;  d = 1: configuration in c48_dom_tail (the known finding), 0 otherwise. *)
 From Coq Require Import ZArith List Bool.
 From DV Require Import Base.MachInt Base.Corr Model.ChunkModel Gen.GenChunk Model.ParForModel Model.PlanModel
   Model.ForEachModel Model.C14Check.
 Import ListNotations.
 Local Open Scope Z_scope.
 
-Definition c48_domcode (c : pfcfg) : Z := if c48_dom_tail c then 1 else if c48_dom_override c then 2 else 0.
+Definition c48_domcode (c : pfcfg) : Z := if c48_dom_tail c then 1 else 0.
 
 (* the largest number of observed invocations that were inside the body at the same time
    (= max over entry points of the number of [entry, exit) intervals containing it) *)
@@ -30,7 +30,7 @@ Definition judge_pf48 (x : pfcfg * list (Z * Z * Z) * (Z * Z * Z)) : Z :=
 (* the model's own verdict on a configuration: does the plan's width exceed the limit?  (used to report how many
    generated cases lie in each domain, and to cross-check width against the domains) *)
 Definition width_vs_domain_ok (c : pfcfg) : bool :=
-  Bool.eqb (user_maxThreads c <? pf_width c) (c48_dom_tail c || c48_dom_override c).
+  Bool.eqb (user_maxThreads c <? pf_width c) (c48_dom c).
 
 (* for_each: fe <cat> n N maxThreads wait -> per-element counts and maxconc *)
 Definition judge_fe48 (x : fecfg * Z) : Z :=
